@@ -388,6 +388,14 @@ func instrumentPackage(p *packages.Package, simPath string, callable *types.Inte
 					} else if name == "After" || name == "Tick" || name == "NewTimer" || name == "NewTicker" || name == "AfterFunc" {
 						rep.Unmodelled = append(rep.Unmodelled, fmt.Sprintf("%s: time.%s", fset.Position(n.Pos()), name))
 					}
+				case "context":
+					if to, ok := map[string]string{"WithTimeout": "CtxWithTimeout", "WithDeadline": "CtxWithDeadline", "AfterFunc": "CtxAfterFunc"}[name]; ok {
+						c.Replace(simSel(to))
+						rep.Rewrites["context."+name]++
+						usedSim = true
+					} else if name == "WithTimeoutCause" || name == "WithDeadlineCause" {
+						rep.Unmodelled = append(rep.Unmodelled, fmt.Sprintf("%s: context.%s", fset.Position(n.Pos()), name))
+					}
 				case "flag":
 					if name == "Parse" {
 						c.Replace(simSel("FlagParse"))
@@ -419,8 +427,12 @@ func instrumentPackage(p *packages.Package, simPath string, callable *types.Inte
 						rep.Unmodelled = append(rep.Unmodelled, fmt.Sprintf("%s: runtime.%s", fset.Position(n.Pos()), name))
 					}
 				case "sync":
-					if name != "Mutex" && name != "RWMutex" && name != "WaitGroup" && name != "Once" {
+					if name != "Mutex" && name != "RWMutex" && name != "WaitGroup" && name != "Once" && name != "Cond" && name != "NewCond" && name != "Locker" && name != "Map" {
 						rep.Unmodelled = append(rep.Unmodelled, fmt.Sprintf("%s: sync.%s", fset.Position(n.Pos()), name))
+					}
+				case "io":
+					if name == "Pipe" {
+						rep.Unmodelled = append(rep.Unmodelled, fmt.Sprintf("%s: io.Pipe (blocks inside the standard library)", fset.Position(n.Pos())))
 					}
 				case "crypto/rand", "unsafe", "os/exec", "os/signal", "net", "syscall":
 					rep.Unmodelled = append(rep.Unmodelled, fmt.Sprintf("%s: %s.%s", fset.Position(n.Pos()), pp, name))
@@ -781,6 +793,8 @@ var syncMethods = map[string]string{
 	"(*sync.RWMutex).Lock": "RWLock", "(*sync.RWMutex).Unlock": "RWUnlock", "(*sync.RWMutex).RLock": "RWRLock", "(*sync.RWMutex).RUnlock": "RWRUnlock",
 	"(*sync.WaitGroup).Add": "WGAdd", "(*sync.WaitGroup).Done": "WGDone", "(*sync.WaitGroup).Wait": "WGWait",
 	"(*sync.Once).Do": "OnceDo",
+	"(*sync.Cond).Wait": "CondWait", "(*sync.Cond).Signal": "CondSignal", "(*sync.Cond).Broadcast": "CondBroadcast",
+	"(*sync.Map).Range": "SyncMapRange",
 }
 
 // instrumentConcurrency rewrites, in one file:
